@@ -9,6 +9,7 @@ import SoxrModel.Properties.C13
 #print axioms Soxr.Properties.C13.engine_names
 #print axioms Soxr.Properties.C13.engine_name_injective
 #print axioms Soxr.Properties.C13.engine_reported
+#print axioms Soxr.Properties.C13.wiped_name_is_no_engine
 #print axioms Soxr.Properties.C13.engines_equal_total
 #print axioms Soxr.Properties.C13.engines_equal_delay
 #print axioms Soxr.Properties.C13.engines_same_delay_relation
